@@ -80,7 +80,7 @@ func runC19(rc *RunCtx) {
 	case 3:
 		// the 1 sat token cannot be moved across (fees), so the swap-to-trusted receive fails after
 		// its unlocking swap; then the same token is received without swap-to-trusted
-		c17SigAllCrossMint(ww)
+		c17SigAllCrossMint(ww, 1)
 		checked = ww.CheckCounters(checked)
 		t := ww.Tokens[len(ww.Tokens)-1]
 		ww.op("w.receive p2pk sigall=true crossmint=false")
